@@ -289,7 +289,7 @@ pub fn run(c: &mut Ctx) {
     }
 
     // (3) random longer octet strings
-    let total = c.total(20_000, 2_000_000);
+    let total = c.total(200_000, 4_000_000);
     for idx in c.cases("octets-rand", total) {
         if c.out_of_time() {
             break;
@@ -312,7 +312,7 @@ pub fn run(c: &mut Ctx) {
     }
 
     // (4) mutated encodings: padding moved, invalid symbols, truncation, case flips
-    let total = c.total(40_000, 4_000_000);
+    let total = c.total(400_000, 8_000_000);
     for idx in c.cases("text-mut", total) {
         if c.out_of_time() {
             break;
